@@ -175,7 +175,17 @@ def run_all(tier, seed):
                 if r.random() < 0.4 and b.chunks and b.chunks[-1].end == b.capacity:
                     b.allocate(b.chunks[-1].end - b.chunks[-1].start)
                     tags["buffer.exactly-full-tail"] += 1
-            sub = r.sample(objs, r.randrange(1, len(objs) + 1))
+            # handles of NESTED parts and of referents are objects too: pickled together with their container they share its buffer
+            pool = list(objs)
+            for o in objs:
+                if type(o).__name__ == "PH2" and r.random() < 0.6:
+                    pool.append(o.h)
+                    if o.rr is not None and hasattr(o.rr, "_xobject"):
+                        pool.append(o.rr)
+                    tags["pool.nested-handle"] += 1
+                if type(o).__name__ == "PS3" and r.random() < 0.4:
+                    pool.append(o.inner)
+            sub = r.sample(pool, r.randrange(1, len(pool) + 1))
             before = [value(o) for o in sub]
             kinds = [type(o).__name__ for o in sub]
             c1 = dict(c0, kinds=kinds)
